@@ -57,6 +57,110 @@ func fdsInto(dir string) []string {
 	return out
 }
 
+// TestC05_FailedRefresh: Destroy after a Refresh that failed late - after it had started loggers and
+// appenders (a property value rejected at the end, a logger that refuses to start, a requested
+// handle name that is not configured). Whatever was accepted by anything that Refresh left running
+// has been handed over when Destroy returns (nothing trickles in afterwards), every event is on the
+// console stream or in the recorder exactly once, and no descriptor stays open.
+func TestC05_FailedRefresh(t *testing.T) {
+	vk.Rule(rule)
+	base := vk.Scratch("c05f")
+	n := 0
+	rapid.Check(t, func(t *rapid.T) {
+		n++
+		dir := filepath.Join(base, strconv.Itoa(n))
+		_ = os.MkdirAll(dir, 0o755)
+		defer os.RemoveAll(dir)
+		log.Destroy()
+		vk.ResetRecs()
+		console.Reset()
+		log.Stdout = console
+		async := rapid.Bool().Draw(t, "async")
+		fault := rapid.SampledFrom([]string{"bad-property", "bad-property", "logger-start-fails", "handle-not-configured"}).Draw(t, "fault")
+		events := rapid.IntRange(1, 90).Draw(t, "events")
+		delayUS := rapid.SampledFrom([]int{0, 200, 2000}).Draw(t, "appenderDelayUS")
+		if delayUS > 0 {
+			vk.SetBehavior("rec", &vk.Behavior{Delay: func(int) time.Duration { return time.Duration(delayUS) * time.Microsecond }})
+		}
+		m := map[string]string{
+			"appender.rec.type": "Rec", "appender.f.type": "File", "appender.f.fileDir": dir, "appender.f.fileName": "plain.log",
+			"logger.c05h.tags": "_c05_main", "logger.c05h.appenderRef[0].ref": "rec", "logger.c05h.appenderRef[1].ref": "f",
+			"logger.other.type": "Logger", "logger.other.tags": "_c05_other", "logger.other.appenderRef.ref": "rec",
+		}
+		if async {
+			m["logger.c05h.type"], m["logger.c05h.bufferFullPolicy"], m["logger.c05h.bufferSize"] = "AsyncLogger", "Block", "100"
+		} else {
+			m["logger.c05h.type"] = "Logger"
+		}
+		switch fault {
+		case "bad-property":
+			m[rapid.SampledFrom([]string{"enableCaller", "fastCaller", "bufferCap"}).Draw(t, "property")] = "not-a-value"
+		case "logger-start-fails":
+			m["logger.zz.type"], m["logger.zz.tags"], m["logger.zz.appenderRef.ref"] = "AsyncLogger", "_c05_zz", "rec"
+			m["logger.zz.bufferSize"] = "7" // below the minimum: Start refuses
+		default:
+			for k := range m {
+				if strings.HasPrefix(k, "logger.c05h.") {
+					m["logger.renamed."+strings.TrimPrefix(k, "logger.c05h.")] = m[k]
+					delete(m, k)
+				}
+			}
+		}
+		var err error
+		if p := vk.Catch(func() { err = log.Refresh(m) }); p != nil {
+			t.Fatalf("VERIF-VIOLATION C05: Refresh panicked: %v", p)
+		}
+		vk.Eval()
+		vk.Class("failed-refresh:" + fault)
+		vk.NonTrivial(fmt.Sprintf("failed-refresh/%s/%v/%d/%d", fault, async, events, delayUS))
+		if err == nil {
+			log.Destroy()
+			t.Fatalf("VERIF-INCONCLUSIVE C05: the faulty configuration (%s) was accepted", fault)
+		}
+		if done, p := vk.Within(30*time.Second, func() {
+			for i := 1; i <= events; i++ {
+				if i%3 == 0 {
+					_, _ = handle.Write([]byte("id=" + strconv.Itoa(i) + "\n"))
+				} else {
+					log.Info(context.Background(), tagMain, log.Int("id", i))
+				}
+			}
+		}); !done || p != nil {
+			vk.HardFail("c05-hang", map[string]any{"fault": fault}, "C05: logging after a failed Refresh (%s) blocked or panicked: %v", fault, p)
+		}
+		if done, p := vk.Within(60*time.Second, log.Destroy); !done || p != nil {
+			vk.HardFail("c05-hang", map[string]any{"fault": fault}, "C05: Destroy after a failed Refresh (%s) blocked or panicked: %v", fault, p)
+		}
+		count := func() (rec map[int64]int, con map[int64]int) {
+			rec, con = map[int64]int{}, map[int64]int{}
+			if r := vk.Rec("rec"); r != nil {
+				for _, it := range r.Items() {
+					rec[it.ID]++
+				}
+			}
+			for _, id := range idsIn(console.Bytes()) {
+				con[id]++
+			}
+			return
+		}
+		rec1, con1 := count()
+		time.Sleep(time.Duration(50+2*delayUS/1000*events) * time.Millisecond)
+		rec2, _ := count()
+		if len(rec2) != len(rec1) {
+			t.Fatalf("VERIF-VIOLATION C05: after a Refresh that failed (%s), Destroy returned while accepted items were still undelivered: the recording appender held %d items when Destroy returned and %d a moment later", fault, len(rec1), len(rec2))
+		}
+		for i := 1; i <= events; i++ {
+			if rec1[int64(i)]+con1[int64(i)] != 1 {
+				t.Fatalf("VERIF-VIOLATION C05: after a Refresh that failed (%s), item id=%d was in the recorder %d times and on the console %d times when Destroy returned (expected exactly once, in one of them)", fault, i, rec1[int64(i)], con1[int64(i)])
+			}
+		}
+		if open := fdsInto(dir); len(open) != 0 {
+			t.Fatalf("VERIF-VIOLATION C05: after a Refresh that failed (%s) and Destroy the process still holds descriptors on %v", fault, open)
+		}
+	})
+	log.Destroy()
+}
+
 // fdsOn lists the process's descriptors that point at exactly path.
 func fdsOn(path string) int {
 	ents, err := os.ReadDir("/proc/self/fd")
